@@ -26,6 +26,8 @@ import (
 	"os"
 	"reflect"
 	"sort"
+	"strings"
+	"sync"
 	"testing/iotest"
 	"time"
 
@@ -116,6 +118,7 @@ type variant struct {
 	v    int16
 	body []byte
 	sh   *connfake.Shape
+	cuts []int // nil: the tier's default cut positions; else exactly these
 }
 
 func connVariants(r *rand.Rand, thorough bool) []variant {
@@ -125,7 +128,7 @@ func connVariants(r *rand.Rand, thorough bool) []variant {
 			mk := func(errs []int16, sh *connfake.Shape) {
 				w := &connfake.W{Errs: errs}
 				op.Build(v, w, r, sh)
-				vs = append(vs, variant{op, v, w.B, sh})
+				vs = append(vs, variant{op: op, v: v, body: w.B, sh: sh})
 			}
 			if op.Name != "fetch" {
 				mk(nil, &connfake.Shape{Topic: topic})
@@ -144,9 +147,9 @@ func connVariants(r *rand.Rand, thorough bool) []variant {
 				attrs   protocol.Attributes
 				comment string
 			}
-			layouts := []layout{{2, 3, 1, 0, "v2 one batch"}, {2, 5, 2, 0, "v2 two batches"}, {1, 3, 1, 0, "v1 message set"}, {2, 4, 1, 1, "v2 gzip"}, {1, 3, 1, 1, "v1 gzip"}}
+			layouts := []layout{{2, 3, 1, 0, "v2 one batch"}, {2, 5, 2, 0, "v2 two batches"}, {1, 3, 1, 0, "v1 message set"}, {1, 3, 1, 1, "v1 gzip"}}
 			if thorough {
-				layouts = append(layouts, layout{2, 6, 3, 2, "v2 snappy three batches"}, layout{2, 2, 1, 3, "v2 lz4"}, layout{2, 2, 1, 4, "v2 zstd"}, layout{1, 4, 2, 2, "v1 snappy"})
+				layouts = append(layouts, layout{2, 6, 3, 2, "v2 snappy three batches"}, layout{1, 4, 2, 2, "v1 snappy"})
 			}
 			for _, l := range layouts {
 				if l.magic == 2 && v < 4 {
@@ -159,9 +162,69 @@ func connVariants(r *rand.Rand, thorough bool) []variant {
 				}
 				mk(nil, &connfake.Shape{Topic: topic, Offset: base, HWM: base + int64(l.n), Set: set, Want: msgs})
 			}
+			// compressed v2 batches (the LAST batch compressed), every codec, in both tiers: EVERY cut position inside the
+			// message set — the points where a codec sees a clean end of its input (offset 0 of the payload, the end of
+			// a framing header, a block boundary) are among them; plus one multi-block snappy payload cut around every
+			// block boundary of its xerial framing.
+			if v >= 4 {
+				for codec := protocol.Attributes(1); codec <= 4; codec++ {
+					for _, b := range []int{1, 2} {
+						set, msgs, base, err := connfake.RecordSet(r, 2, int64(10+r.Intn(20)), 2*b+1, b, codec)
+						if err != nil {
+							fmt.Fprintln(os.Stderr, "c17: compressed record set", codec, err)
+							continue
+						}
+						mk(nil, &connfake.Shape{Topic: topic, Offset: base, HWM: base + int64(2*b+1), Set: set, Want: msgs})
+						va := &vs[len(vs)-1]
+						start := 8 + len(va.body) - len(set)
+						for k := start - 2; k <= 8+len(va.body); k++ {
+							va.cuts = append(va.cuts, k)
+						}
+						va.cuts = append(va.cuts, 0, 3, 8, 20)
+					}
+				}
+				if v == 10 || thorough {
+					set, msgs, base, err := connfake.RecordSetSized(r, 2, 40, 3, 1, 2, 30000)
+					if err == nil {
+						mk(nil, &connfake.Shape{Topic: topic, Offset: base, HWM: base + 3, Set: set, Want: msgs})
+						va := &vs[len(vs)-1]
+						start := 8 + len(va.body) - len(set)
+						va.cuts = append(xerialBoundaries(set, start), start+30, start+61, start+62, 8+len(va.body)-1, 8+len(va.body))
+					}
+				}
+			}
 		}
 	}
 	return vs
+}
+
+// xerialBoundaries returns the frame offsets around every structural boundary of a xerial-framed snappy payload of a
+// single v2 batch (batch header 61 bytes, then magic(8) version(4) compat(4), then blocks [int32 length][data]); nil
+// if the payload is not framed that way.
+func xerialBoundaries(set []byte, frameStart int) (ks []int) {
+	const hdr = 61
+	if len(set) < hdr+16 || string(set[hdr:hdr+8]) != "\x82SNAPPY\x00" {
+		return nil
+	}
+	add := func(p int) {
+		for d := -1; d <= 1; d++ {
+			ks = append(ks, frameStart+p+d)
+		}
+	}
+	add(hdr)
+	add(hdr + 8)
+	add(hdr + 16)
+	p := hdr + 16
+	for p+4 <= len(set) {
+		n := int(set[p])<<24 | int(set[p+1])<<16 | int(set[p+2])<<8 | int(set[p+3])
+		add(p + 4)
+		p += 4 + n
+		if p > len(set) {
+			break
+		}
+		add(p)
+	}
+	return ks
 }
 
 // nextBody is the list-offsets answer scripted for the follow-up operation.
@@ -172,6 +235,12 @@ var nextBody = func() []byte {
 }()
 
 func connCase(va variant, k int) (impl string, dur time.Duration) {
+	return connCaseD(va, k, false, 5*time.Second, 6*time.Second)
+}
+
+// connCaseD: stall = after k bytes the broker goes silent instead of dropping the connection; only the Conn's
+// deadline ends the wait.
+func connCaseD(va variant, k int, stall bool, deadline, watchdog time.Duration) (impl string, dur time.Duration) {
 	frameLen := 8 + len(va.body)
 	t0 := time.Now()
 	done := make(chan string, 1)
@@ -188,12 +257,12 @@ func connCase(va variant, k int) (impl string, dur time.Duration) {
 		c, br := connfake.Start(topic, connfake.VersionTable(map[int16]int16{va.op.Key: va.v}))
 		defer br.Stop()
 		defer c.Close()
-		c.SetDeadline(time.Now().Add(5 * time.Second))
+		c.SetDeadline(time.Now().Add(deadline))
 		cut := k
 		if k >= frameLen {
 			cut = -1
 		}
-		br.Push(va.op.Key, connfake.Resp{Body: va.body, Cut: cut})
+		br.Push(va.op.Key, connfake.Resp{Body: va.body, Cut: cut, Stall: stall})
 		// the follow-up list-offsets answer (only reachable when the connection survived)
 		br.Push(2, connfake.Resp{Body: nextBody, Cut: -1})
 		_, err := va.op.Call(c, &sh)
@@ -208,10 +277,103 @@ func connCase(va variant, k int) (impl string, dur time.Duration) {
 	}()
 	select {
 	case impl = <-done:
-	case <-time.After(30 * time.Second):
+	case <-time.After(watchdog):
 		impl = "hang - -"
 	}
 	return impl, time.Since(t0)
+}
+
+// stalled: the same sweep with a broker that goes silent after k bytes (no FIN): every operation must come back with an
+// error when its deadline (300 ms here) expires — never later, never with data — and the Conn must not be reused.  The
+// cases wait for their deadline: run 24 at a time.
+func stalled(out *bufio.Writer, r *rand.Rand, thorough bool) (n, late int) {
+	type job struct {
+		va   variant
+		k    int
+		impl string
+		d    time.Duration
+	}
+	var jobs []*job
+	for _, va := range connVariants(r, thorough) {
+		fl := 8 + len(va.body)
+		ks := []int{0, 3, 4, 8, 8 + r.Intn(len(va.body)), fl - 1}
+		if !thorough {
+			ks = []int{ks[r.Intn(4)], ks[4+r.Intn(2)]}
+		}
+		for _, k := range ks {
+			if k >= 0 && k < fl {
+				jobs = append(jobs, &job{va: va, k: k})
+			}
+		}
+	}
+	sem := make(chan struct{}, 24)
+	var wg sync.WaitGroup
+	for _, j := range jobs {
+		wg.Add(1)
+		sem <- struct{}{}
+		go func(j *job) {
+			defer wg.Done()
+			defer func() { <-sem }()
+			j.impl, j.d = connCaseD(j.va, j.k, true, 300*time.Millisecond, 4*time.Second)
+		}(j)
+	}
+	wg.Wait()
+	for _, j := range jobs {
+		if j.d > 2*time.Second && !strings.HasPrefix(j.impl, "hang") {
+			j.impl = "late " + strings.SplitN(j.impl, " ", 2)[1] // came back, but long after the deadline
+			late++
+		}
+		fmt.Fprintf(out, "c17s %s %s:%d:%d:%d %s %d %s\t%s\n", gen.Hex([]byte(topic)), j.va.op.Name, j.va.v, j.va.sh.Offset, j.va.sh.HWM, gen.Hex(j.va.body), j.k, gen.Hex(nextBody), j.impl)
+		n++
+	}
+	return
+}
+
+// ---------------------------------------------------------------------------------------------- un-framed sasl token
+
+// rawSasl: after a v0 SaslHandshake the authentication tokens travel un-framed ([int32 len][bytes]); the broker's
+// answer is cut after k bytes.
+//
+//	c17raw <answer hex> <k> <next body hex>\t<res> <next>
+func rawSasl(out *bufio.Writer, r *rand.Rand, thorough bool) (n int) {
+	for _, tokLen := range []int{0, 1, 9, 40} {
+		tok := gen.Bytes(r, tokLen)
+		w := &connfake.W{}
+		w.I32(int32(tokLen))
+		w.Raw(tok)
+		for _, k := range cuts(r, len(w.B), true, 0) {
+			c, br := connfake.Start(topic, connfake.VersionTable(map[int16]int16{17: 0}))
+			c.SetDeadline(time.Now().Add(2 * time.Second))
+			cut := k
+			if k >= len(w.B) {
+				cut = -1
+			}
+			br.RawNext(w.B, cut)
+			br.Push(2, connfake.Resp{Body: nextBody, Cut: -1})
+			res, next := "hang", "-"
+			done := make(chan struct{})
+			go func() {
+				defer close(done)
+				defer func() {
+					if p := recover(); p != nil {
+						res = "panic"
+					}
+				}()
+				_, err := kafka.VerifConnOp(c, "saslAuthenticate")
+				res = connfake.Outcome(err)
+				_, err2 := c.ReadLastOffset()
+				next = connfake.Outcome(err2)
+			}()
+			select {
+			case <-done:
+			case <-time.After(5 * time.Second):
+			}
+			go func() { c.Close(); br.Stop() }()
+			fmt.Fprintf(out, "c17raw %s %d %s\t%s %s\n", gen.Hex(w.B), k, gen.Hex(nextBody), res, next)
+			n++
+		}
+	}
+	return
 }
 
 // ---------------------------------------------------------------------------------------------- two callers, one Conn
@@ -221,6 +383,9 @@ func connCase(va variant, k int) (impl string, dur time.Duration) {
 //
 //	c2 <topic hex> <A>:<ver>:0:0 <bodyA hex> <B>:<ver>:0:0 <bodyB hex> <k>\t<resA> <resB>
 func twoCallers(out *bufio.Writer, r *rand.Rand, thorough bool) (n, bad int) {
+	if badTotal >= badBudget {
+		return
+	}
 	pairs := [][2]string{{"listOffsets", "listOffsets"}, {"heartbeat", "offsetCommit"}, {"offsetFetch", "heartbeat"},
 		{"findCoordinator", "listGroups"}, {"listOffsets", "syncGroup"}, {"leaveGroup", "listOffsets"}}
 	for _, pr := range pairs {
@@ -276,7 +441,8 @@ func twoCallers(out *bufio.Writer, r *rand.Rand, thorough bool) (n, bad int) {
 					opB.Name, opB.Versions[0], gen.Hex(wb.B), k, resA, resB)
 				n++
 				if resA == "hang" || resB == "hang" {
-					if bad++; bad >= 5 {
+					bad++
+					if badTotal++; badTotal >= badBudget {
 						return
 					}
 				}
@@ -376,10 +542,24 @@ func main() {
 	thorough := gen.Thorough()
 	nconn, nrr, slow := 0, 0, 0
 	var worst time.Duration
+	hung := 0
 	for _, va := range connVariants(r, thorough) {
 		n := 8 + len(va.body)
-		for _, k := range cuts(r, n, thorough, 10) {
+		ks := va.cuts
+		if ks == nil || (thorough && n < 4096) {
+			ks = cuts(r, n, thorough, 10)
+		}
+		sort.Ints(ks)
+		last := -1
+		for _, k := range ks {
+			if k < 0 || k > n || k == last || hung >= 5 {
+				continue
+			}
+			last = k
 			impl, d := connCase(va, k)
+			if strings.HasPrefix(impl, "hang") {
+				hung++ // every hung case costs its watchdog: a handful is enough for the replay
+			}
 			if d > 2*time.Second {
 				slow++
 			}
@@ -390,6 +570,7 @@ func main() {
 			nconn++
 		}
 	}
+	nstall, nlate := stalled(out, r, thorough)
 	apis := protocol.VerifApis()
 	skipped := 0
 	for _, a := range apis {
@@ -424,12 +605,21 @@ func main() {
 			}
 		}
 	}
+	t0 := time.Now()
+	lap := func() string { d := time.Since(t0).Round(time.Millisecond); t0 = time.Now(); return d.String() }
+	nraw := rawSasl(out, r, thorough)
+	fmt.Fprintf(os.Stderr, "c17 driver: %d stalled-broker cases (%d back long after the deadline)\n", nstall, nlate)
+	fmt.Fprintf(os.Stderr, "c17 driver: %d un-framed sasl token cases\n", nraw)
 	n2, bad2 := twoCallers(out, r, thorough)
-	fmt.Fprintf(os.Stderr, "c17 driver: %d two-caller cases (%d with a hung caller; stops at 5)\n", n2, bad2)
+	fmt.Fprintf(os.Stderr, "c17 driver: %d two-caller cases (%d with a hung caller) in %s\n", n2, bad2, lap())
 	nlo := multiPart(out, r, thorough)
-	fmt.Fprintf(os.Stderr, "c17 driver: %d split list-offsets cases (one sub-response cut)\n", nlo)
+	fmt.Fprintf(os.Stderr, "c17 driver: %d split list-offsets cases (one sub-response cut) in %s\n", nlo, lap())
+	nmb := multiBroker(out, r, thorough)
+	fmt.Fprintf(os.Stderr, "c17 driver: %d split/merge cases on a three-broker cluster in %s\n", nmb, lap())
 	ntp, tslow := transportPath(out, r, thorough)
-	fmt.Fprintf(os.Stderr, "c17 driver: %d transport/writer end-to-end cases (slowest %v)\n", ntp, tslow.Round(time.Millisecond))
+	fmt.Fprintf(os.Stderr, "c17 driver: %d transport/writer end-to-end cases (slowest %v) in %s\n", ntp, tslow.Round(time.Millisecond), lap())
+	nts := transportStall(out, r, thorough)
+	fmt.Fprintf(os.Stderr, "c17 driver: %d transport cases against a stalled broker in %s\n", nts, lap())
 	out.Flush()
 	fmt.Fprintf(os.Stderr, "c17 driver: %d conn cases (%d slower than 2s, worst %v), %d ReadResponse cases over %d apis (%d api versions skipped)\n",
 		nconn, slow, worst.Round(time.Millisecond), nrr, len(apis), skipped)
